@@ -95,6 +95,7 @@ def gen(rng, tier, i):
     p.file('sv.c', sv_source(rng, nvals))
     p.file('svd/keep', 'x')
     p.opt('c16_nvals', nvals)
+    p.meta['no_shrink'] = True      # without its save step a restore step still "fails": a shrunk plan would not show the same thing
 
     def cmd(text): return p.cycle(send(0, 'do ' + text + '\r\n'))
 
